@@ -23,6 +23,10 @@ rule("C09.i", "a name is stored as it was given: the constructors of nodes, asse
               "normalisation on the way (numeric parsing, rounding, case folding, stripping): a normalisation is not injective, two distinct "
               "names ('1' and '01', 'a' and 'A ') would become one node / asset", floor=2)
 
+rule("C09.j", "a key that contains another object's name is composed where it is used (at set-up, from the live name): a constructor does not "
+              "store a string built from the name of an asset it refers to - the mapping is written from the current names at every set-up, a "
+              "snapshot taken at construction goes stale when the objects are renamed (an injective renaming of the same objects)", floor=0)
+
 NAME_COLUMNS = ("asset", "node", "var_name", "internal_asset")
 DIGIT_COLUMNS = ("index_assets", "time_step", "index")
 SUBSTRING_METHODS = {"contains", "startswith", "endswith", "find", "rfind", "split", "rsplit", "partition",
@@ -213,7 +217,7 @@ def _sink(p, fn, node):
     return "other", None
 
 
-@analysis("keys", ["C07.a", "C07.b", "C09.a", "C09.b", "C09.d", "C09.e", "C09.i"])
+@analysis("keys", ["C07.a", "C07.b", "C09.a", "C09.b", "C09.d", "C09.e", "C09.i", "C09.j"])
 def run(ctx):
     p = ctx.p
     # ------------------------------------------------------------------ C09.i names are stored as given
@@ -245,6 +249,30 @@ def run(ctx):
                    "separate markets are merged silently (optimum -783 instead of -1309 after renaming the nodes)" % why, node=st,
                    ok_detail="name or str(name)")
     ctx.require(n_i >= 2, "fewer than 2 constructors that store a name found", rules=["C09.i"])
+    # ------------------------------------------------------------------ C09.j no snapshots of other objects' names
+    n_j = 0
+    for ci in sorted(p.classes.values(), key=lambda c: c.name):
+        init = ci.methods.get("__init__")
+        if init is None:
+            continue
+        for st in au.walk_stmts(init.body):
+            if not (isinstance(st, ast.Assign) and any(isinstance(t0, ast.Attribute) and au.base_name(t0) == "self" for t0 in st.targets)):
+                continue
+            if not (isinstance(st.value, ast.BinOp) and isinstance(st.value.op, ast.Add)):
+                continue
+            parts = au.flatten_binop(st.value, ast.Add)
+            if not any(au.const_str(x) is not None for x in parts):
+                continue
+            foreign = [x for x in parts if isinstance(x, ast.Attribute) and x.attr == "name" and au.path(x.value) not in (None, "self")]
+            if foreign:
+                n_j += 1
+                ctx.ob("C09.j", init, au.short(st, 80), False,
+                       "the constructor stores a string that contains the name of another object (%s) and the set-up later compares it with names "
+                       "written from the *current* objects: after the wrapped assets have been renamed (new distinct names, or the two names "
+                       "exchanged) the stored key matches nothing (IndexError) or the wrong variable (value -1200 instead of -1800)"
+                       % au.short(foreign[0], 40), node=st)
+    if n_j == 0:
+        ctx.ob("C09.j", "package", "constructors keep no key built from another object's name", True)
     _CTX["ctx"] = ctx
     # ------------------------------------------------------------------ C09.b alphabet of internal variable names
     var_names = {}
